@@ -468,6 +468,40 @@ def targeted_takes_family():
     return out
 
 
+def targeted_setop_family():
+    """the shapes the EXCEPT / INTERSECT recognisers look at: a join over ALL columns of two narrow relations, with and without
+    a preceding or following distinct, followed by the canonical null test, by other filters, or by nothing, then a projection
+    of the left columns"""
+    out = []
+    tn, un = CFG["t"], CFG["u"]
+    for width in (1, 2):
+        cols = ["a", "b"][:width]
+        right = [From(un), Select(*cols)]
+        on = C("this.a") == C("that.a")
+        if width == 2:
+            on = on & (C("this.b") == C("that.b"))
+        lcols = [f"{tn}.{c}" for c in cols]
+        filters = {"none": [], "null-test": [Filter(C("w." + cols[-1]) == None)],  # noqa: E711
+                   "null-test-first": [Filter(C("w.a") == None)],  # noqa: E711
+                   "not-null": [Filter(C("w.a") != None)],  # noqa: E711
+                   "left-col": [Filter(C(f"{tn}.a") > 0)], "left-col-or-null": [Filter((C(f"{tn}.a") > 0) | (C("w.a") == None))]}  # noqa: E711
+        for side in ("left", "inner"):
+            for dist in ("", "before", "after"):
+                for fname, flt in filters.items():
+                    if side == "inner" and fname not in ("none", "left-col"):
+                        continue
+                    pipe = [From(tn), Select(*cols)]
+                    if dist == "before":
+                        pipe.append(Group([C(c) for c in cols], Take(1)))
+                    pipe.append(Join(right, on, side=side, alias="w"))
+                    pipe += flt
+                    pipe.append(Select(*lcols))
+                    if dist == "after":
+                        pipe.append(Group([C(c) for c in lcols], Take(1)))
+                    out.append((f"setop:{width}:{side}:{dist or 'plain'}:{fname}", Prog(pipe)))
+    return out
+
+
 def family_c01(tier, seed):
     """quick: all pipelines of <=2 templates on both heads + a seed-rotated slice of length 3;
     thorough: all of length <=3 on the explicit-column head, <=2 on the wildcard head, plus a slice of length 4"""
@@ -484,7 +518,7 @@ def family_c01(tier, seed):
         rr.shuffle(l2)
         rr.shuffle(l3)
         l2, l3 = l2[:300], l3[:150]
-    out += l2 + l3 + targeted_let_family() + targeted_distinct_family() + targeted_group_take_family() + targeted_takes_family()
+    out += l2 + l3 + targeted_let_family() + targeted_distinct_family() + targeted_group_take_family() + targeted_takes_family() + targeted_setop_family()
     out += list(enumerate_family(1 if tier == "quick" else 2, heads=("lit",)))
     out += list(enumerate_family(1 if tier == "quick" else 2, heads=("alias", "alias_wild")))
     if tier == "quick":
